@@ -122,8 +122,13 @@ func (sr *StreamReader) read(bs []byte) (int, error) {
 }
 
 func (sr *StreamReader) discardSeek(n int64) error {
-	_, err := sr._seeker.Seek(n, io.SeekCurrent)
-	return err
+	if _, err := sr._seeker.Seek(n, io.SeekCurrent); err != nil {
+		// The reader has a Seek method but cannot seek (the read end of a
+		// pipe, a terminal): read the bytes instead, from now on.
+		sr.discard = sr._discardStream
+		return sr.discardStream(n)
+	}
+	return nil
 }
 
 func (sr *StreamReader) discardStream(n int64) error {
